@@ -130,6 +130,14 @@ split_instance!(vs_split_fill7_one_in_flight, 7, 1, [4]);
 // @tier C
 split_instance!(vs_split_empty, 0, 0, []);
 
+// @verif id=VS.split.e props=C18 tier=quick timeout=900
+// @functions VirtualSocket::split_tx_queue_into_segments
+// @bounds MSS 4; 6 bytes buffered of which 4 are in flight (2-byte tail); ANY peer window (incl. windows smaller than, or not a multiple of, the segment size); Nagle symbolic
+// @asserts with Nagle the 2-byte tail is held back whenever it is smaller than what the window would allow (e.g. window 3), and is sent only if the window itself limits it to exactly that size; without Nagle it is segmented
+// @unwindset make_tx_at=9,__vs::record=37
+// @tier C
+split_instance!(vs_split_fill6_tail2_one_in_flight, 6, 1, [4]);
+
 // @verif id=VS.split.d props=C18,C19 tier=thorough timeout=900
 // @functions VirtualSocket::split_tx_queue_into_segments
 // @bounds MSS 4; 8 bytes buffered, a 2-byte partial segment in flight
